@@ -282,6 +282,68 @@ fn user_flavor_event(s: &Shape, v: &Val, block: bool, alg: Option<&NamedAlg>, ro
            "status":status,"calls":calls})
 }
 
+// ------------------------------------------------------------------ op-level recording storage (under COBS / CRC-in-COBS)
+/// a bounded store that logs every call the modifier above it makes: push (with result), block write, and every
+/// IndexMut access (the COBS flavour patches code bytes through it)
+struct RecStore {
+    cap: usize,
+    buf: Vec<u8>,
+    log: Rc<RefCell<Vec<J>>>,
+}
+impl Flavor for RecStore {
+    type Output = Vec<u8>;
+    fn try_push(&mut self, b: u8) -> postcard::Result<()> {
+        if self.buf.len() >= self.cap {
+            self.log.borrow_mut().push(json!(["push", b, 0]));
+            return Err(postcard::Error::SerializeBufferFull);
+        }
+        self.buf.push(b);
+        self.log.borrow_mut().push(json!(["push", b, 1]));
+        Ok(())
+    }
+    fn try_extend(&mut self, d: &[u8]) -> postcard::Result<()> {
+        if self.buf.len() + d.len() > self.cap {
+            self.log.borrow_mut().push(json!(["extend", jb(d), 0]));
+            return Err(postcard::Error::SerializeBufferFull);
+        }
+        self.buf.extend_from_slice(d);
+        self.log.borrow_mut().push(json!(["extend", jb(d), 1]));
+        Ok(())
+    }
+    fn finalize(self) -> postcard::Result<Vec<u8>> {
+        self.log.borrow_mut().push(json!(["fin", jb(&self.buf)]));
+        Ok(self.buf)
+    }
+}
+impl core::ops::Index<usize> for RecStore {
+    type Output = u8;
+    fn index(&self, i: usize) -> &u8 {
+        self.log.borrow_mut().push(json!(["read", i, self.buf.len()]));
+        &self.buf[i]
+    }
+}
+impl core::ops::IndexMut<usize> for RecStore {
+    fn index_mut(&mut self, i: usize) -> &mut u8 {
+        // the value stored through the returned reference shows in the final buffer; the index is the point
+        self.log.borrow_mut().push(json!(["patch", i, self.buf.len()]));
+        &mut self.buf[i]
+    }
+}
+fn cobs_ops_event(s: &Shape, v: &Val, alg: Option<&NamedAlg>, cap: usize) -> J {
+    let log: Rc<RefCell<Vec<J>>> = Default::default();
+    let sv = SV(s, v);
+    let r = catch(|| -> postcard::Result<Vec<u8>> {
+        let store = RecStore { cap, buf: vec![], log: log.clone() };
+        match alg {
+            None => postcard::serialize_with_flavor(&sv, sf::Cobs::try_new(store)?),
+            Some(a) => with_digest!(a, |d| postcard::serialize_with_flavor(&sv, sf::crc::CrcModifier::new(sf::Cobs::try_new(store)?, d))),
+        }
+    });
+    let calls = log.borrow().clone();
+    json!({"op":"cobs_ops","shape":s.to_json(),"value":v.to_json(),"stack":stack_json(if alg.is_some() { Stack::CrcCobs } else { Stack::Cobs }, alg),
+           "cap":cap,"res":res(r),"calls":calls})
+}
+
 // ------------------------------------------------------------------ value population
 /// values whose plain encodings have the run structures COBS cares about (lengths around multiples of 254)
 fn cobs_structured(r: &mut StdRng) -> (Shape, Val) {
@@ -413,6 +475,12 @@ pub fn run(a: &Args) {
         }
         ev["outs"] = json!(outs);
         out.ev(ev);
+        // op-level: what the COBS flavour does to its storage, at a few capacities incl. the exact one
+        if matches!(stack, Stack::Cobs | Stack::CrcCobs) && (full_len <= 600) {
+            for cap in [full_len, full_len.saturating_sub(1), r.gen_range(0..=full_len), full_len + 3] {
+                out.ev(cobs_ops_event(&s, &v, alg, cap));
+            }
+        }
         // C20: a user flavour receives exactly the plain encoding, through whichever methods the encoder chooses
         if !long && i % 3 == 0 {
             out.ev(user_flavor_event(&s, &v, i % 2 == 0, None, usize::MAX, false));
